@@ -258,9 +258,11 @@ def producer_scenarios(rng, n):
         try:
             prod = rng.choice(["diff -ruN", "diff -ruN", "diff -rN -U0", "diff -rN -U1", "diff -rcN", "diff -rN -C1", "diff -rN", "git",
                                "diff -rupN", "diff -rcpN", "diff -rN -C1 -F ^[a-z]",
-                               "diff -ruN --suppress-blank-empty", "diff -rN -U1 --suppress-blank-empty"])
+                               "diff -ruN --suppress-blank-empty", "diff -rN -U1 --suppress-blank-empty",
+                               "diff -rcN -T", "diff -rN -C1 -T", "diff -rN -T"])
             # a normal diff names no file: one file, named on the command line
-            nfiles = 1 if prod == "diff -rN" else rng.randint(1, 3)
+            normal = prod in ("diff -rN", "diff -rN -T")
+            nfiles = 1 if normal else rng.randint(1, 3)
             tree = {}
             exp = {}
             names = rng.sample(["f", "g.txt", "sub/h", "sub/deep/k", "z"], nfiles)
@@ -274,7 +276,7 @@ def producer_scenarios(rng, n):
                     ops = [((o, ("", nl)) if (o == " " and rng.random() < 0.4) else (o, (t, nl))) for o, (t, nl) in ops]
                     ops = applyc.fix_nonl(ops)
                 a = [l for o, l in ops if o != "+"]; b = [l for o, l in ops if o != "-"]
-                kind = "change" if prod == "diff -rN" else rng.choice(["change", "change", "change", "add", "delete"])
+                kind = "change" if normal else rng.choice(["change", "change", "change", "add", "delete"])
                 if kind == "add":
                     a = None; b = b or [("new", "L")]
                 if kind == "delete":
@@ -305,12 +307,12 @@ def producer_scenarios(rng, n):
                     scen.add_parents(exp, nm); exp[nm] = ("R", 0o644, emit.file_bytes(b))
                 # known-finding triggers
                 hs0 = gen.hunks_from_ops(ops, 0)
-                zero = ("-U0" in prod) or prod == "diff -rN"
+                zero = ("-U0" in prod) or normal
                 if zero and a and b and hs0 and hs0[0]["oc"] == 0 and hs0[0]["os"] == 0:
                     meta["k20"] = True
                 if zero and a and b and hs0 and hs0[0]["nc"] == 0 and hs0[0]["ns"] == 0:
                     meta["k21"] = True
-                if (a is None or b is None or (a is not None and not a) or (b is not None and not b)) and ("-rcN" in prod or "-C" in prod or prod == "diff -rN"):
+                if (a is None or b is None or (a is not None and not a) or (b is not None and not b)) and ("-rcN" in prod or "-C" in prod or normal):
                     meta["k2"] = True
                 if (a is None or (a is not None and not a)) and zero:
                     meta["k2"] = True
@@ -320,7 +322,7 @@ def producer_scenarios(rng, n):
                     scen.add_parents(exp, nm)
             tree["p.diff"] = ("R", 0o644, text); exp["p.diff"] = tree["p.diff"]
             o = {"p": 2 if prod == "git" else 1, "i": "p.diff"}
-            if prod == "diff -rN":
+            if normal:
                 o["file"] = names[0]
             scns.append(dict(tree=tree, opts=o, umask=0o022, expected=exp, meta=meta, producer=prod))
         finally:
